@@ -7,4 +7,5 @@ CONSTANTS
 INVARIANT NoLoss
 INVARIANT InRightFile
 INVARIANT OrderKept
+INVARIANT NeverOverwrites
 CHECK_DEADLOCK FALSE
